@@ -50,7 +50,7 @@ func hasSig(fs []Failure, violation bool, sig string) bool {
 // carries its address: ["sa", addr, "sk", slot, value]; an address without slots is ["sa", addr].
 func diffGroups(line string) [][]string {
 	t := strings.Fields(line)
-	argc := map[string]int{"sa": 1, "sk": 2, "n": 2, "d": 2, "r": 2, "c0": 1, "c1": 3, "m": 2}
+	argc := map[string]int{"sa": 1, "sk": 2, "n": 2, "d": 2, "r": 2, "c0": 1, "c1": 3, "m": 2, "x": 1}
 	var gs [][]string
 	cur := ""
 	curHasSlots := true
